@@ -35,7 +35,15 @@ fn corpus(family: &str, thorough: bool) -> Corpus {
     let small = Alpha::uniform(&[0x00, 0x01, 0x02, 0x03, 0x04, 0xff]);
     match family {
         "record" => Corpus {
-            structs: cat::tls_records(2, true),
+            structs: {
+                let mut v = cat::tls_records(2, true);
+                for m in cat::hellos_with_extension_lists().into_iter().filter(|w| w.lens.first().map_or(false, |l| l.label == "hs_len")).step_by(2) {
+                    v.push(cat::record(0x16, 0x0303, |w| {
+                        w.append(&m);
+                    }));
+                }
+                v
+            },
             alpha: Alpha::new(&[&[0x00, 0x14, 0x15, 0x16, 0x17, 0x18, 0xff], &[0x03], &[0x00, 0x03], &[0x00, 0x01, 0x41, 0xff], &[0x00, 0x01, 0x02, 0x03, 0x04, 0x06, 0xff]], &[0x00, 0x01, 0x02, 0x03, 0x0e, 0xff]),
             alpha_n: n(9, 11),
         },
@@ -48,6 +56,9 @@ fn corpus(family: &str, thorough: bool) -> Corpus {
             structs: {
                 let mut v = cat::handshake_messages(true);
                 v.extend(cat::handshake_all_types());
+                v.extend(cat::hellos_with_extension_lists().into_iter().filter(|w| w.lens.first().map_or(false, |l| l.label == "hs_len")));
+                v.extend(cat::magic_hellos().into_iter().filter(|w| w.lens.first().map_or(false, |l| l.label == "hs_len")));
+                v.extend(cat::handshake_many().into_iter().step_by(4));
                 v
             },
             alpha: Alpha::new(
@@ -57,7 +68,11 @@ fn corpus(family: &str, thorough: bool) -> Corpus {
             alpha_n: n(8, 10),
         },
         "hsbody" => Corpus {
-            structs: strip(&cat::handshake_messages(true), 4),
+            structs: {
+                let mut v = cat::handshake_messages(true);
+                v.extend(cat::hellos_with_extension_lists().into_iter().filter(|w| w.lens.first().map_or(false, |l| l.label == "hs_len")));
+                strip(&v, 4)
+            },
             alpha: Alpha::new(&[&[0x00, 0x01, 0x02, 0x03, 0x7f, 0xff], &[0x00, 0x01, 0x02, 0x03, 0x12, 0xff]], &[0x00, 0x01, 0x02, 0x03, 0x04, 0xff]),
             alpha_n: n(7, 9),
         },
@@ -69,7 +84,10 @@ fn corpus(family: &str, thorough: bool) -> Corpus {
                         v.push(cat::ext_with(t, &c));
                     }
                 }
+                v.extend(cat::text_extensions());
+                v.extend(cat::extensions_many().into_iter().step_by(3));
                 if family == "extlist" {
+                    v.extend(cat::extension_lists_many().into_iter().take(4));
                     let k = cat::known_extensions();
                     for a in k.iter().step_by(5) {
                         for b in k.iter().step_by(7) {
@@ -95,7 +113,11 @@ fn corpus(family: &str, thorough: bool) -> Corpus {
             alpha_n: n(17, 18),
         },
         "dtlshs" => Corpus {
-            structs: cat::dtls_handshake_messages(),
+            structs: {
+                let mut v = cat::dtls_handshake_messages();
+                v.extend(cat::hellos_with_extension_lists().into_iter().filter(|w| w.lens.first().map_or(false, |l| l.label == "dtls_length")));
+                v
+            },
             alpha: Alpha::new(&[&[0x01, 0x02, 0x03, 0x0b, 0x0e, 0x10, 0x0c, 0xff], &[0x00, 0xff], &[0x00], &[0x00, 0x01, 0x02, 0x03, 0xff], &[0x00], &[0x00, 0x01], &[0x00, 0xff], &[0x00], &[0x00, 0x01, 0x02], &[0x00, 0xff], &[0x00], &[0x00, 0x01, 0x02, 0x03, 0x04, 0xff]], &[0x00, 0x01, 0x02, 0xfe, 0xff]),
             alpha_n: n(15, 16),
         },
